@@ -630,3 +630,39 @@ Example C01_solve_with_filters_nonvacuous :
             (rem_at sp_model solve_params (S t)) (sp_env t rs rc dst [] cst cch si ci [] [] cs cidx))
      (indices [5%nat])) (indices [3%nat])) (indices [2%nat])) (indices [2%nat])) [0; 1; 2]%nat = true.
 Proof. cbv zeta. repeat split; vm_compute; reflexivity. Qed.
+
+(* ---- a corollary: the order in which the choices are listed does not matter to what solve returns ------------------------ *)
+From LCM Require Import Proofs.Spec_Algebra.
+(* (C10 for the code, models without filter-restricted variables): two listings (dch, cch) and (dch', cch') of the same       *)
+(* choices -- any order within the discrete and within the continuous ones -- give arrays with equal entries, because both are  *)
+(* the specification's solve_spec.                                                                                              *)
+Theorem C01_lcm_solve_does_not_depend_on_the_order_of_the_choices :
+  forall (m : model) (p : params) (dch cch dch' cch' : list (string * grid)),
+  Permutation (dch ++ cch) (choices m) -> Permutation (dch' ++ cch') (choices m) ->
+  NoDup (map fst (choices m)) -> NoDup (map fst (states m)) -> grids_valid (states m) ->
+  NoDup (map fst (dstates (states m) ++ dch ++ cstates (states m) ++ cch)) ->
+  NoDup (map fst (dstates (states m) ++ dch' ++ cstates (states m) ++ cch')) ->
+  (forall t, (S t < n_periods m)%nat -> forall ds dc cs cc,
+     in_bounds (sizes (dstates (states m))) ds -> in_bounds (sizes dch) dc -> in_bounds (sizes (cstates (states m))) cs -> in_bounds (sizes cch) cc ->
+     evaluates_at m p (fun _ => 0%Q) (spec_env t (dstates (states m)) dch (cstates (states m)) cch ds dc cs cc)) ->
+  (forall t, S t = n_periods m -> forall ds dc cs cc,
+     in_bounds (sizes (dstates (states m))) ds -> in_bounds (sizes dch) dc -> in_bounds (sizes (cstates (states m))) cs -> in_bounds (sizes cch) cc ->
+     exists u, eval_fun (depth m) m p (spec_env t (dstates (states m)) dch (cstates (states m)) cch ds dc cs cc) "utility" = Some u) ->
+  (forall t, (S t < n_periods m)%nat -> forall ds dc cs cc,
+     in_bounds (sizes (dstates (states m))) ds -> in_bounds (sizes dch') dc -> in_bounds (sizes (cstates (states m))) cs -> in_bounds (sizes cch') cc ->
+     evaluates_at m p (fun _ => 0%Q) (spec_env t (dstates (states m)) dch' (cstates (states m)) cch' ds dc cs cc)) ->
+  (forall t, S t = n_periods m -> forall ds dc cs cc,
+     in_bounds (sizes (dstates (states m))) ds -> in_bounds (sizes dch') dc -> in_bounds (sizes (cstates (states m))) cs -> in_bounds (sizes cch') cc ->
+     exists u, eval_fun (depth m) m p (spec_env t (dstates (states m)) dch' (cstates (states m)) cch' ds dc cs cc) "utility" = Some u) ->
+  (forall t idx, (t < n_periods m)%nat -> in_bounds (state_shape m) idx ->
+     exists q, get VUndef (nth t (solve_spec m p) (scalar VUndef)) idx = VFin q) ->
+  forall t idx, (t < n_periods m)%nat -> in_bounds (state_shape m) idx ->
+  veq (get VUndef (nth t (code_solve m p (n_periods m) dch cch) (scalar VUndef)) (dpart (states m) idx ++ cpart (states m) idx)%list)
+      (get VUndef (nth t (code_solve m p (n_periods m) dch' cch') (scalar VUndef)) (dpart (states m) idx ++ cpart (states m) idx)%list).
+Proof.
+  intros m p dch cch dch' cch' P1 P2 N1 N2 V N3 N4 E1 L1 E2 L2 F t idx Ht Hb.
+  eapply veq_trans.
+  - exact (lcm_solve_is_the_specifications_solve m p dch cch P1 N1 N2 V N3 E1 L1 F t idx Ht Hb).
+  - apply veq_sym. exact (lcm_solve_is_the_specifications_solve m p dch' cch' P2 N1 N2 V N4 E2 L2 F t idx Ht Hb).
+Qed.
+Print Assumptions C01_lcm_solve_does_not_depend_on_the_order_of_the_choices.
